@@ -249,7 +249,10 @@ type runner struct {
 	snaps   map[string][3]string
 	led     *ledger // Go-side specification state (oracle.go); answers the `spec ...` ops
 	jled    *ledger // the ledger the oracles judge against: = led, except that it follows the store after a reported lease hand-over (F8)
-	cons    bool
+	cons    bool    // every event so far satisfied ledger.consistent (= Lean `Ledger.consistent`); decides the `spec` ops
+	// strict: every event so far also satisfied ledger.extra (= the rest of Lean's `TxStore.Consistent`): the history
+	// lies inside the quantifier of C01/C02/C12/C13 and the property oracles apply
+	strict bool
 	// oracleOff: a finding was reported whose consequences would repeat on every later op of this case
 	oracleOff bool
 }
@@ -302,6 +305,7 @@ func (r *runner) reset(mat int64) error {
 	r.led = newLedger()
 	r.jled = newLedger()
 	r.cons = true
+	r.strict = true
 	r.oracleOff = false
 	return r.open()
 }
@@ -668,6 +672,9 @@ func (r *runner) applyEv(e event) {
 	if r.cons && !r.led.consistent(e) {
 		r.cons = false
 	}
+	if r.strict && !(r.cons && r.led.extra(e)) {
+		r.strict = false
+	}
 	r.led.apply(e)
 	r.jled.now = r.now
 	r.jled.apply(e)
@@ -693,7 +700,7 @@ func (r *runner) exec(pos []string, kv map[string]string, v func(string, ...inte
 			return "err " + errCode(err)
 		}
 		r.applyEv(event{kind: kind, tx: d, bm: bm, credits: cr})
-		return fmt.Sprintf("ok exists=%s cons=%s", b01(ex), b01(r.cons))
+		return fmt.Sprintf("ok exists=%s cons=%s strict=%s", b01(ex), b01(r.cons), b01(r.cons && r.strict))
 	case "inserttx":
 		if len(pos) < 2 {
 			return "bad-op"
@@ -748,7 +755,7 @@ func (r *runner) exec(pos []string, kv map[string]string, v func(string, ...inte
 		before := r.jled.clone()
 		r.applyEv(event{kind: "disc", height: h})
 		r.checkRollback(before, h, v)
-		return "ok cons=" + b01(r.cons)
+		return "ok cons=" + b01(r.cons) + " strict=" + b01(r.cons && r.strict)
 	case "removeunmined":
 		if len(pos) != 2 || r.txs[pos[1]] == nil {
 			return "bad-op"
@@ -760,7 +767,7 @@ func (r *runner) exec(pos []string, kv map[string]string, v func(string, ...inte
 			return "err " + errCode(err)
 		}
 		r.applyEv(event{kind: "abandon", tx: d})
-		return "ok cons=" + b01(r.cons)
+		return "ok cons=" + b01(r.cons) + " strict=" + b01(r.cons && r.strict)
 	case "clock":
 		if len(pos) != 2 {
 			return "bad-op"
@@ -1019,7 +1026,7 @@ func (r *runner) exec(pos []string, kv map[string]string, v func(string, ...inte
 			facts = r.led.factsStr()
 		}
 		if pos[0] == "snap" {
-			r.snaps[pos[1]] = [3]string{obs, facts, b01(r.oracleOff)}
+			r.snaps[pos[1]] = [3]string{obs, facts, b01(r.oracleOff || !r.strict)}
 			return "ok"
 		}
 		old, have := r.snaps[pos[1]]
@@ -1031,7 +1038,7 @@ func (r *runner) exec(pos []string, kv map[string]string, v func(string, ...inte
 		}
 		if old[0] != obs {
 			switch {
-			case !r.cons || r.oracleOff || old[2] == "1":
+			case !r.cons || !r.strict || r.oracleOff || old[2] == "1":
 				// one of the two histories already carries a reported finding that explains a difference
 			case normZero(old[0]) == normZero(obs):
 				v("C02 key=rollback.zero-value-credit: two consistent histories with equal final facts differ on zero-value credits: A=[%s] B=[%s]", old[0], obs)
